@@ -174,6 +174,10 @@ func (b *byteBuffer) UnmarshalJSON(data []byte) error {
 }
 
 func (b *byteBuffer) base64() string {
+	// newBuffer(nil) is a nil buffer (e.g. newBufferFromInt(0)); encode it as the empty string.
+	if b == nil {
+		return ""
+	}
 	return base64URLEncode(b.data)
 }
 
